@@ -2,6 +2,7 @@ import LasModel.Props.C07
 open LasModel.Props.C07
 #print axioms C07_base_sizes
 #print axioms C07_roundtrip
+#print axioms C07_roundtrip_exact
 #print axioms C07_inplace
 #print axioms C07_date
 #print axioms C07_string32
